@@ -62,4 +62,64 @@ def SortedFrom : Int → List (Int × Bool) → Prop
   | _, [] => True
   | lo, (t, _) :: rest => lo ≤ t ∧ SortedFrom t rest
 
+/-! ### Clean-up of idle limiters
+
+`RateLimitValidator.cleanupOldLimiters` (a ticker goroutine, every `cleanup_interval`) deletes the
+limiter of a key that was not asked for a while; the next request of that key creates a new, FULL
+one.  Every ask that reaches the bucket refreshes both `lastAccess` and the limiter's own clock, so
+"idle" is `t - last`.
+
+  * `.fixedIdle`   — the pinned tree: idle > 10 min, whatever the bucket holds
+  * `.refillAware` — idle > max(10 min, burst/rate + 1 s): the bucket had the time to refill completely
+-/
+
+def tenMin : Int := 600000000000
+def second : Int := 1000000000
+
+inductive EvictVariant | fixedIdle | refillAware
+  deriving DecidableEq, Repr
+
+/-- The tree under verification. -/
+def activeEvict : EvictVariant := .refillAware
+
+/-- Would a clean-up pass at time `t` drop this limiter? -/
+def evictable (v : EvictVariant) (rate burst : Int) (b : Bucket) (t : Int) : Bool :=
+  decide (tenMin < t - b.last) &&
+    (match v with
+     | .fixedIdle => true
+     | .refillAware => decide (burst * unit ≤ rate * (t - b.last - second)))
+
+/-- One clean-up pass as this bucket sees it: a dropped limiter is a full bucket from then on
+    (`Props.C17.lazy_creation_equiv`: full at the pass or at its next use makes no difference). -/
+def sweep (v : EvictVariant) (rate burst : Int) (b : Bucket) (t : Int) : Bucket :=
+  if evictable v rate burst b t then full burst t else b
+
+/-- A schedule of asks and clean-up passes. -/
+inductive Step
+  | ask (t : Int) (gate : Bool)
+  | sweep (t : Int)
+  deriving DecidableEq, Repr
+
+def Step.time : Step → Int
+  | .ask t _ => t
+  | .sweep t => t
+
+def runS (v : EvictVariant) (rate burst : Int) : Bucket → List Step → List Obs
+  | _, [] => []
+  | b, .sweep t :: rest => runS v rate burst (sweep v rate burst b t) rest
+  | b, .ask t false :: rest => ⟨t, t, false⟩ :: runS v rate burst b rest
+  | b, .ask t true :: rest =>
+    let r := ask rate burst b t
+    ⟨t, t, r.1⟩ :: runS v rate burst r.2 rest
+
+/-- The asks of a schedule, clean-up passes dropped. -/
+def asksOf : List Step → List (Int × Bool)
+  | [] => []
+  | .sweep _ :: rest => asksOf rest
+  | .ask t g :: rest => (t, g) :: asksOf rest
+
+def StepsSorted : Int → List Step → Prop
+  | _, [] => True
+  | lo, s :: rest => lo ≤ s.time ∧ StepsSorted s.time rest
+
 end Olla.Model.Bucket
